@@ -162,7 +162,7 @@ def build_unit(unit, quiet=True):
     import cxx2c
     from typenames import Unsupported
     try:
-        decls, defs, meta = cxx2c.lower_all(ast)
+        decls, defs, meta = cxx2c.lower_all(ast, ext_structs=spec.UNIT.get('ext_structs'))
     except Unsupported as e:
         raise Undecided('cxx2c: no lowering rule: %s' % e)
     os.remove(ast)
@@ -201,18 +201,33 @@ def build_unit(unit, quiet=True):
     for extra in spec.UNIT.get('model_sources', []):
         add(read(os.path.join(VERIF, 'models', extra)))
     add('/* ---- lowered repository code ---- */')
+    # functions the spec replaces by a trusted stub (an assumed contract on a dependency, in executable form)
+    stubbed = {fn: e for fn, e in entries.items() if e.get('stub')}
+    if stubbed:
+        parts = []
+        for cn in meta['order']:
+            txt = meta['texts'][cn]
+            if cn in stubbed:
+                head = txt[:txt.index('/*@CONTRACT')]
+                txt = head + '/* body replaced by the trusted stub of specs/%s.py */\n{\n%s\n}\n' % (unit, subst(stubbed[cn]['stub'], fmeta[cn]).strip('\n'))
+            parts.append(txt)
+        defs = '\n\n'.join(parts) + '\n'
     for ln in defs.split('\n'):
         m = re.match(r'^\s*/\*@CONTRACT (\S+)@\*/\s*$', ln)
         if m:
             fn = m.group(1)
             e = entries.get(fn)
-            if e is not None and not e.get('inline') and not e.get('harness'):
+            if e is not None and not e.get('inline') and not e.get('harness') and not e.get('stub'):
                 fm = fmeta[fn]
                 for kind in ('requires', 'ensures'):
                     for c in as_list(e.get(kind)):
                         tags, expr, text = clause(c)
                         lines.append('__CPROVER_%s(%s)' % (kind, subst(expr, fm).replace('\n', ' ')))
                         linemap[len(lines)] = {'fn': fn, 'kind': kind, 'tags': tags, 'expr': subst(expr, fm), 'text': text}
+                fr = e.get('frees')
+                if fr is not None:
+                    for f1 in ([fr] if isinstance(fr, str) else fr):
+                        lines.append('__CPROVER_frees(%s)' % subst(f1, fm).replace('\n', ' '))
                 asg = e.get('assigns')
                 if asg is not None:
                     for a1 in ([asg] if isinstance(asg, str) else asg):
@@ -255,7 +270,7 @@ def build_unit(unit, quiet=True):
     add('/* ---- harnesses ---- */')
     targets = []
     for fn, e in entries.items():
-        if e.get('inline') or e.get('contract_only'):
+        if e.get('inline') or e.get('contract_only') or e.get('stub'):
             continue
         fm = fmeta[fn]
         h = ['void vf_h_%s(void)' % fn, '{']
@@ -311,7 +326,7 @@ def build_unit(unit, quiet=True):
     if undefined:
         raise Undecided('unit %s: no model for std entities used by the current source: %s' % (unit, ', '.join(undefined[:20])))
     # call graph closure for contract replacement
-    contracted = {fn for fn, e in entries.items() if not e.get('inline') and not e.get('no_replace') and not e.get('harness')}
+    contracted = {fn for fn, e in entries.items() if not e.get('inline') and not e.get('no_replace') and not e.get('harness') and not e.get('stub')}
     repl = {}
     for fn in targets:
         seen = set()
@@ -353,7 +368,7 @@ def build_unit(unit, quiet=True):
                              'pat': e['_pat'], 'bounded': e.get('bounded'), 'cbmc_flags': e.get('cbmc_flags', []),
                              'loop_free': bool(e.get('loop_free')), 'plain': bool(e.get('harness'))}
                         for fn, e in entries.items()},
-            'meta': {'functions': meta['functions'], 'records': meta['records']},
+            'meta': {'functions': meta['functions'], 'records': meta['records']}, 'stubs': sorted(stubbed),
             'tagmap': getattr(spec, 'TAGMAP', {}), 'lower_s': time.time() - t0,
             'spec_assumptions': spec.UNIT.get('assumptions', [])}
     json.dump(info, open(done, 'w'))
